@@ -128,7 +128,8 @@ class TapeProp(object):
                                 "data_leader": rng.choice([None, 0, 1, 128, rng.randint(0, 300)]),
                                 "blocks": rng.choice([None, None, [255], [1], [rng.randint(1, 255)],
                                                       [rng.randint(1, 255), rng.randint(1, 255), rng.randint(1, 255)]]),
-                                "prefix": rng.choice([None, None, None, [20, 0], [64, 16], [1, 1], [300, 128]])})
+                                "prefix": rng.choice([None, None, None, [20, 0], [64, 16], [1, 1], [300, 128]]),
+                                "inter": rng.choice([0, 0, 0, 1, 2, 8])})
                     if fd["len"] > 4096 and ops[-1]["blocks"] and min(ops[-1]["blocks"]) < 64:
                         # tiny blocks (each with its own leader when gapped) on a long file make a tape of tens of megabytes
                         ops[-1]["blocks"] = [rng.randint(100, 255)]
@@ -216,7 +217,7 @@ class TapeProp(object):
                 last_file = materialise(op["file"])
                 pre = op.get("prefix") or [0, 0]
                 rec = RT.write_file(last_file, leader=op["leader"], blank=op["blank"], block_sizes=op.get("blocks"),
-                                    data_leader=op.get("data_leader"), prefix=b"\x55" * pre[0] + b"\x00" * pre[1])
+                                    data_leader=op.get("data_leader"), prefix=b"\x55" * pre[0] + b"\x00" * pre[1], inter=op.get("inter", 0))
                 if len(st["buf"]) + len(rec) >= 161280 > len(st["buf"]):
                     res.stats["probe:peer_tape_reached_disk_size"] += 1
                 st["buf"] = st["buf"] + rec
